@@ -7,16 +7,30 @@ resumable state machine
 `_end_ball_event.wait()`); `resume` runs the code from there up to and including the next lifecycle post.  Environment
 requests (`end_ball`, `end_game`, slam tilt, `balls_in_play = n`, a drain, an extra-ball award, a player-add request) may
 arrive at any pc.  When a posted event completes (handlers, queue waits) is a scheduler choice: `resume` is an input op.
+
+Session 3: the real tilt mode as far as it acts on the game (`tilt`, `slamTilt`, `tiltWarn`, `warnReset`, `tiltClear`:
+`tilted`, `slam`, the end-of-ball event, per-player warnings), a player-add request vetoed by a `player_add_request`
+handler (`addVetoed`), a stop of the game mode from outside (`abort`, pseudo event `abt` in the trace), a growing
+`num_balls_known` (`setKnown`), `balls_per_game` / `max_players` templates evaluated when `_run` begins (`config`, only
+between games), and `end_game` while `_start_game` waits for the first player (the game ends without having started).
+Ball devices, ball saves and multiballs are not modelled: what they do reaches the game as `drain n` / `setBip n`.
 -/
 namespace MpfVerif.Game
 
 inductive Ev
   | gws | gsg | gsd | ptws | ptsg | ptsd | bws | bsg | bsd | bwe | beg | bed | ptwe | pteg | pted | gwe | geg | ged
+  | abt      -- pseudo event: the game mode was stopped from outside while `_run` had not returned (its task is cancelled)
   deriving DecidableEq, Repr
 
 inductive Op
   | start | resume | endBall | endGame | slam | setBip (n : Int) | drain (n : Nat) | extraBall | addPlayer
   | addAccepted | addRejected | playerAdded | finish | startCheck
+  -- the real tilt mode (mpf/modes/tilt/code/tilt.py): tilt(), slam_tilt(), tilt_warning(), reset_warnings(), _tilt_done()
+  | tilt | slamTilt | tiltWarn | warnReset | tiltClear
+  | addVetoed                    -- a player_add_request handler returned False
+  | abort                        -- Mode.stop() of the game mode during the game (service mode, restart)
+  | setKnown (n : Nat)           -- ball_controller.num_balls_known changed (a new ball was found)
+  | config (b m : Nat)           -- balls_per_game / max_players templates are evaluated when `_run` begins
   deriving DecidableEq, Repr
 
 structure St where
@@ -34,6 +48,9 @@ structure St where
   endEv : Bool := false
   checked : Bool := false        -- `_start_game` is past its `if self.ending: return`
   pendAdds : Nat := 0            -- player_add_request accepted, player not yet appended (same drain of the bus)
+  tilted : Bool := false         -- Game.tilted
+  warnTo : Nat := 3              -- tilt: warnings_to_tilt
+  warn : Nat → Nat := fun _ => 0 -- player variable tilt_warnings
   -- ghost counters of the current game (not observable; for the extra-ball accounting theorem)
   started : Nat → Nat := fun _ => 0      -- ball_will_start per player
   firstBalls : Nat → Nat := fun _ => 0   -- turns of that player whose first ball started
@@ -78,7 +95,8 @@ def resume (st : St) : Option St :=
     -- `_start_game` after game_starting: `if self.ending: return` (then `while not self.ending` is skipped); otherwise
     -- (op `startCheck`) it asks for a first player if there is none and waits until one has been added
     if !st.checked then (if st.ending then some (emit st .gwe) else none)
-    else if st.players = 0 then none else some (emit st .gsd)
+    -- waiting for the first player: `end_game` wakes the wait and the game ends without having started
+    else if st.players = 0 then (if st.ending then some (emit st .gwe) else none) else some (emit st .gsd)
   | some .gsd => some (loopCheck st)
   | some .ptws => some (emit st .ptsg)
   | some .ptsg => some (emit st .ptsd)
@@ -98,6 +116,19 @@ def resume (st : St) : Option St :=
   | some .gwe => some (emit st .geg)
   | some .geg => some (emit st .ged)
   | some .ged => none
+  | some .abt => none
+
+/-- `Tilt.tilt`: nothing while the game is already tilted or ending; otherwise `tilted = True` and `game.end_ball()` -/
+def tiltNow (st : St) : St :=
+  if st.tilted || st.ending then st else { st with tilted := true, endEv := true }
+
+/-- `Tilt.tilt_warning`: ignored without a current player, while ending or tilted; the warning is counted in the current
+player's `tilt_warnings` and the `warnings_to_tilt`-th one tilts -/
+def tiltWarn (st : St) : St :=
+  if st.cur = 0 || st.ending || st.tilted then st
+  else
+    let st1 := { st with warn := setAt st.warn st.cur (st.warn st.cur + 1) }
+    if st.warn st.cur + 1 ≥ st.warnTo then tiltNow st1 else st1
 
 /-- the guards of `request_player_add` -/
 def addRefused (st : St) : Bool :=
@@ -117,6 +148,7 @@ def step (st : St) : Op → Option St
     if st.pc.isSome then none
     else some (emit { st with players := 0, cur := 0, balls := fun _ => 0, extra := fun _ => 0, bip := 0,
                               ending := false, slam := false, endEv := false, pendAdds := 0, checked := false,
+                              tilted := false, warn := (fun _ => 0),
                               started := (fun _ => 0), firstBalls := (fun _ => 0), awarded := (fun _ => 0) } .gws)
   | .resume => resume st
   | .endBall => if st.pc.isNone then none else some { st with endEv := true }
@@ -143,6 +175,25 @@ def step (st : St) : Op → Option St
   | .startCheck =>
     if st.pc = some .gsg && !st.checked && !st.ending && decide (st.pendAdds = 0) then some { st with checked := true } else none
   | .finish => if st.pc = some .ged then some { st with pc := none } else none
+  | .tilt => if st.pc.isNone then none else some (tiltNow st)
+  -- Tilt.slam_tilt: `game.slam_tilted = True; self.tilt()`
+  | .slamTilt => if st.pc.isNone then none else some (tiltNow { st with slam := true })
+  | .tiltWarn => if st.pc.isNone then none else some (tiltWarn st)
+  -- Tilt.reset_warnings (reset_warnings_events, default ball_will_end): not without a player, not while ending
+  | .warnReset =>
+    if st.pc.isNone then none
+    else if st.cur = 0 || st.ending then some st else some { st with warn := setAt st.warn st.cur 0 }
+  -- Tilt._tilt_done once the balls are home and the settle time is over: `game.tilted = False`
+  | .tiltClear => if st.pc.isNone || !st.tilted then none else some { st with tilted := false }
+  | .addVetoed => if st.pc.isNone || st.pendAdds = 0 then none else some { st with pendAdds := st.pendAdds - 1 }
+  -- the mode is stopped while `_run` is still running: the task is cancelled, `machine.game = None`
+  | .abort =>
+    if st.pc.isNone || st.pc = some .ged || st.pc = some .abt then none
+    else some { st with pc := none, pendAdds := 0, log := st.log ++ [(.abt, st.cur, st.balls st.cur)] }
+  -- only growth is modelled (a ball MPF did not know is found); balls are never written off in the modelled world
+  | .setKnown n => if n ≥ st.known then some { st with known := n } else none
+  | .config b m =>
+    if st.pc.isNone && decide (b ≥ 1) then some { st with bpg := b, maxPlayers := m, balls := fun _ => 0 } else none
 
 def run (st : St) : List Op → St
   | [] => st
@@ -156,7 +207,7 @@ def showEv : Ev → String
   | .bws => "ball_will_start" | .bsg => "ball_starting" | .bsd => "ball_started"
   | .bwe => "ball_will_end" | .beg => "ball_ending" | .bed => "ball_ended"
   | .ptwe => "player_turn_will_end" | .pteg => "player_turn_ending" | .pted => "player_turn_ended"
-  | .gwe => "game_will_end" | .geg => "game_ending" | .ged => "game_ended"
+  | .gwe => "game_will_end" | .geg => "game_ending" | .ged => "game_ended" | .abt => "aborted"
 
 def b01 (b : Bool) : String := if b then "1" else "0"
 
@@ -167,14 +218,34 @@ def answer (st : St) (r : Option St) : St × String :=
     let evs := st'.log.drop st.log.length
     (st', (" ".intercalate (evs.map (fun e => showEv e.1 ++ ":" ++ toString e.2.1 ++ ":" ++ toString e.2.2)) ++
       " | bip=" ++ toString st'.bip ++ " players=" ++ toString st'.players ++
-      " ending=" ++ b01 st'.ending).trimAsciiStart.toString)
+      " ending=" ++ b01 st'.ending ++ " tilted=" ++ b01 st'.tilted ++ " slam=" ++ b01 st'.slam ++
+      " endev=" ++ b01 st'.endEv ++ " warn=" ++ toString (st'.warn st'.cur) ++
+      " known=" ++ toString st'.known).trimAsciiStart.toString)
 
 def driverStep (st : St) (line : String) : St × String :=
   match line.splitOn " " with
-  | ["reset", bpg, mx, known] =>
-    match bpg.toNat?, mx.toNat?, known.toNat? with
-    | some b, some m, some k => ({ bpg := b, maxPlayers := m, known := k }, "ok")
-    | _, _, _ => (st, "bad-op")
+  | ["reset", bpg, mx, known, wt] =>
+    match bpg.toNat?, mx.toNat?, known.toNat?, wt.toNat? with
+    | some b, some m, some k, some w => ({ bpg := b, maxPlayers := m, known := k, warnTo := w }, "ok")
+    | _, _, _, _ => (st, "bad-op")
+  | ["config", bpg, mx] =>
+    match bpg.toNat?, mx.toNat? with
+    | some b, some m => match step st (.config b m) with
+      | some st' => (st', "ok")
+      | none => (st, "not-enabled")
+    | _, _ => (st, "bad-op")
+  | ["known", n] => match n.toNat? with
+    | some v => answer st (step st (.setKnown v))
+    | none => (st, "bad-op")
+  | ["tilt"] => answer st (step st .tilt)
+  | ["slamtilt"] => answer st (step st .slamTilt)
+  | ["tiltwarn"] => answer st (step st .tiltWarn)
+  | ["warnreset"] => answer st (step st .warnReset)
+  | ["tiltclear"] => answer st (step st .tiltClear)
+  | ["addvetoed"] => answer st (step st .addVetoed)
+  | ["abort"] => match step st .abort with
+    | some st' => (st', "ok")
+    | none => (st, "not-enabled")
   | ["state"] => (st, "game=" ++ b01 st.pc.isSome)
   | ["start"] => answer st (step st .start)
   | ["resume"] => answer st (step st .resume)
